@@ -82,12 +82,20 @@ def base_terms():
     out.append(("param", [("param", "p"), K.X, ("const", ("sym", "c")), K.Y, ("param", "p"), ("num", 2.0)]))
     # a constant FIRST, then vector reductions and more constants (reflected operators at the bottom of the spine)
     out.append(("constfirst", [("const", 4.0), ("vsum", v), ("num", 1.0), ("lincomb", [("sym", "k0"), 2.0, -1.0], v), ("const", ("sym", "c")), ("dot", v, v)]))
+    # reductions over DIFFERENT views that carry the same display name (the step of a slice and the column range of a
+    # matrix row are not part of the name): each view's variables must be found
+    u = ("vec", "u", 6)
+    R = ("mat", "R", 1, 4)
+    out.append(("views", [("vsum", ("slice", u, 0, 6, 2)), ("vsum", ("slice", u, 0, 6, 3)), ("lincomb", [("sym", "k0"), 2.0], ("mrowpart", R, 0, (0, 2, None))),
+                          ("vsum", ("mrowpart", R, 0, (2, 4, None))), ("norm", ("slice", u, 1, 6, 2), 1), ("norm", ("slice", u, 1, 6, 4), 2)]))
+    out.append(("views2", [("norm", ("slice", u, 0, 6, 3), 2), ("norm", ("slice", u, 0, 6, 2), 2), K.X, ("lincomb", [1.0, ("sym", "k0")], ("slice", u, 1, 6, 4)),
+                           ("lincomb", [3.0, 1.0, 2.0], ("slice", u, 1, 6, 2)), ("vsum", ("slice", u, 0, 6, 5))]))
     return out
 
 
 def small_recipes(tier):
     out = []
-    rich = {"x", "sin", "node0", "param", "constfirst"}
+    rich = {"x", "sin", "node0", "param", "constfirst", "views", "views2"}
     for tag, terms in base_terms():
         for op in ("+", "-", "*", "/"):
             sizes = (2, 3, 6) if (op in ("+", "-") or tag in rich or tier == "thorough") else (2, 3)
